@@ -132,6 +132,14 @@ def handleC03 : List String → String
     match fromHex h with
     | some f => toHex (subtreeFilterElem f)
     | none => "bad-op"
+  | ["embed", "defaults", h] =>
+    match fromHex h with
+    | some m =>
+      match defaultsElem m with
+      | some (some e) => "elem " ++ toHex e
+      | some none => "absent -"
+      | none => "error -"
+    | none => "bad-op"
   | ["embed", "edit", t, h] =>
     match fromHex t, fromHex h with
     | some t, some c => toHex (editConfigElem t c)
